@@ -340,15 +340,22 @@ def parse_rst7(path):
     if len(lines) < 3:
         raise LayoutError("rst7-too-short")
     l2 = lines[1]
+    # FORMAT(I5,5E15.7); AMBER itself widens the count to I6 / I7 once it no longer fits (>= 100000 / >= 1000000 atoms), and a
+    # line is 3 (count only) or 15 (count + time) characters longer than the count field, so the width follows from the
+    # line length
+    w = 5
+    for cand in (6, 7, 8):
+        if len(l2) in (cand, cand + 15) and l2[:cand].strip().isdigit() and len(l2[:cand].strip()) == cand:
+            w = cand
     try:
-        natoms = int(l2[0:5])
+        natoms = int(l2[0:w])
     except ValueError:
         raise LayoutError("rst7-natom-field", repr(l2[:20]))
     time = None
-    if len(l2) > 5:
-        if len(l2) < 20:
+    if len(l2) > w:
+        if len(l2) < w + 15:
             raise LayoutError("rst7-time-field-width", repr(l2))
-        time = _strict_real(l2[5:20], "E15.7 time")
+        time = _strict_real(l2[w:w + 15], "E15.7 time")
     lpf = (natoms + 1) // 2
     body = lines[2:]
     if len(body) == lpf:
